@@ -409,12 +409,18 @@ impl Prop for C02 {
             Ok(s) => s,
             Err(_) => return RunOut::skip("parser-rejected"),
         };
+        // "arbitrary time advances": in 3 of 8 cases one loop iteration covers 2, 7 or 300 ms
+        // (tick_ms(n) with n > 1); derived from the case seed so that a replay repeats it
+        st.batch = case.param_u64("batch").unwrap_or([1u64, 1, 1, 1, 1, 2, 7, 300][(case.seed % 8) as usize]);
         st.run_ops(&case.ops);
         st.finish();
         if st.flood {
             return RunOut::skip("replay-fast-forward-output-flood");
         }
         let mut o = RunOut::pass();
+        if st.batch > 1 {
+            o.count(&format!("schedule.late-loop-{}ms-per-iteration", st.batch), 1);
+        }
         o.sim_ms = st.trace.sim_ms;
         o.sig = trace_sig(&st.trace.outs);
         probes_into(&mut o, &st.probes, &st.trace);
